@@ -256,6 +256,22 @@ func (e *tlEnv) factsAbout(r ssa.Value, b *ssa.BasicBlock, depth int) guardFacts
 				g.Why = append(g.Why, fmt.Sprintf("%s %d", op, k))
 			}
 		}
+		// an unsigned comparison of the (signed) value with a length or a constant below 2^63: a negative
+		// value converts to at least 2^63 and cannot pass, so the one test bounds it on both sides
+		if cv, isConv := x.(*ssa.Convert); isConv && (op == token.LSS || op == token.LEQ) {
+			if tb, ok := cv.Type().Underlying().(*types.Basic); ok && tb.Info()&types.IsUnsigned != 0 {
+				if fb, ok := cv.X.Type().Underlying().(*types.Basic); ok && fb.Info()&types.IsInteger != 0 && fb.Info()&types.IsUnsigned == 0 && e.P.Sizes.Sizeof(tb) >= e.P.Sizes.Sizeof(fb) {
+					small := lenArgOf(y) != nil
+					if k, isK := (Folder{e.P}).FoldInt(y); isK && k >= 0 {
+						small = true
+					}
+					if small {
+						g.Low = true
+						g.Why = append(g.Why, "unsigned "+op.String()+" a length")
+					}
+				}
+			}
+		}
 		switch op {
 		case token.LEQ, token.LSS, token.EQL:
 			if !e.tainted[y] {
